@@ -199,6 +199,11 @@ def rules(ctx):
                             and g.reaches(W, m) and g.reaches(m, n) and not isinstance(m, ast.For):
                         killed = True
             ok = exits_dom and not killed
+            acc = isinstance(n, ast.AugAssign) and isinstance(n.op, ast.Add)
+            ctx.inst('R01.2', fn, 'accumulating store ' + src(n)[:40], acc,
+                     "the reduced term is accumulated onto the output (gadget terms may already occupy the key)" if acc else
+                     "`%s` overwrites the output entry: a gadget term or another reduced term already stored under "
+                     "the same key is lost" % src(n))
             ctx.inst('R01.2', fn, n, ok,
                      "store under key %s after the loop exit len(%s) <= %s" % (src(k), K, degp) if ok else
                      "store into the output under key `%s` is not dominated by the exit of the loop that "
